@@ -1225,7 +1225,10 @@ std::optional<QByteArray> QXmppSaslClientScram::respond(const QByteArray &challe
 {
     if (m_step == 0) {
         m_gs2Header = QByteArrayLiteral("n,,");
-        m_clientFirstMessageBare = QByteArrayLiteral("n=") + username().toUtf8() + QByteArrayLiteral(",r=") + m_nonce;
+        // RFC 5802: '=' and ',' in the user name are sent as "=3D" and "=2C"
+        auto saslName = username().toUtf8();
+        saslName.replace('=', QByteArrayLiteral("=3D")).replace(',', QByteArrayLiteral("=2C"));
+        m_clientFirstMessageBare = QByteArrayLiteral("n=") + saslName + QByteArrayLiteral(",r=") + m_nonce;
 
         m_step++;
         return m_gs2Header + m_clientFirstMessageBare;
